@@ -43,7 +43,9 @@ def load_check(pid):
 def child_env():
     env = dict(os.environ)
     env["PYTHONHASHSEED"] = "0"
-    env["PYTHONPATH"] = ROOT + os.pathsep + env.get("PYTHONPATH", "")
+    # VERIF_REPO (optional): check a copy of the repository instead of the installed /repo (background sweeps)
+    repo = env.get("VERIF_REPO")
+    env["PYTHONPATH"] = (repo + os.pathsep if repo else "") + ROOT + os.pathsep + env.get("PYTHONPATH", "")
     env["TWOSIGMA_MEMENTO_VERIF"] = "1"
     env["PYTHONDONTWRITEBYTECODE"] = "1"
     env.pop("MEMENTO_ENV", None)
